@@ -3,6 +3,7 @@ import Mathlib.Tactic.FieldSimp
 import Mathlib.Tactic.Ring
 import Mathlib.Tactic.Linarith
 import Mathlib.Topology.Order.LeftRight
+import Mathlib.Analysis.Calculus.MeanValue
 
 /-!
   **C17 / C16 / C01 — the atmosphere interpolation (`OASModel/Akima.lean`, `common/atmos_comp.py`).**
@@ -18,6 +19,8 @@ import Mathlib.Topology.Order.LeftRight
   * where four consecutive secants vanish (the isothermal layer of the table) the knot slope is zero and a segment between two such
     knots is constant (`knotSlope_flat`, `hermite_flat`): temperature and speed of sound do not vary there,
   * the interpolant is continuous at every altitude strictly inside the table, knots included (`c17_akima_continuousAt`),
+  * within a segment it changes by at most `125 ·` (largest secant slope) per unit altitude (`c17_akima_lipschitz_on_segment`, from
+    `mExt_bound`, `knotSlope_bound`, `hermiteDeriv_bound` and the mean value theorem),
   * `v = speed_of_sound · Mach_number` (`c17_atmos_velocity`).
 -/
 namespace OAS.C17Akima
@@ -228,5 +231,126 @@ theorem c17_akima_continuousAt (n : ℕ) (x y : ℕ → ℝ) (hx : Increasing n 
 /-- non-vacuity: a strictly increasing table exists and the theorems apply to it -/
 example : eval 4 (fun i => (i : ℝ)) (fun i => (i : ℝ) * 2) ((1 : ℕ) : ℝ) = ((1 : ℕ) : ℝ) * 2 :=
   c17_akima_interpolates 4 _ _ (fun a b h _ => by exact_mod_cast h) 1 (by norm_num) (by norm_num)
+
+/-! ### how fast the interpolant can change (the bound used by the discontinuity search of the harness) -/
+
+/-- the derivative of a Hermite segment in the normalised coordinate `u = (q − x0)/(x1 − x0)` -/
+theorem hermiteDeriv_normalised (x0 x1 y0 y1 t0 t1 q : ℝ) (h : x1 ≠ x0) :
+    hermiteDeriv x0 x1 y0 y1 t0 t1 q =
+      3 * (t0 + t1 - 2 * ((y1 - y0) / (x1 - x0))) * ((q - x0) / (x1 - x0)) ^ 2
+        + 2 * (3 * ((y1 - y0) / (x1 - x0)) - 2 * t0 - t1) * ((q - x0) / (x1 - x0)) + t0 := by
+  have hd : x1 - x0 ≠ 0 := sub_ne_zero.mpr h
+  simp only [hermiteDeriv]
+  field_simp
+  ring
+
+/-- **slope bound of a segment**: if both knot slopes and the secant are bounded by `S`, the derivative of the segment is bounded by
+`25 S` on the whole segment (a crude bound; `2.5 S` holds) -/
+theorem hermiteDeriv_bound (x0 x1 y0 y1 t0 t1 q S : ℝ) (h : x0 < x1) (hq0 : x0 ≤ q) (hq1 : q ≤ x1)
+    (h0 : |t0| ≤ S) (h1 : |t1| ≤ S) (hm : |(y1 - y0) / (x1 - x0)| ≤ S) :
+    |hermiteDeriv x0 x1 y0 y1 t0 t1 q| ≤ 25 * S := by
+  rw [hermiteDeriv_normalised _ _ _ _ _ _ _ h.ne']
+  set m := (y1 - y0) / (x1 - x0)
+  set u := (q - x0) / (x1 - x0)
+  have hd : 0 < x1 - x0 := sub_pos.mpr h
+  have hu0 : 0 ≤ u := div_nonneg (sub_nonneg.mpr hq0) hd.le
+  have hu1 : u ≤ 1 := by
+    rw [div_le_one hd]; linarith
+  have hS : 0 ≤ S := le_trans (abs_nonneg _) h0
+  have hu2 : u ^ 2 ≤ 1 := by nlinarith
+  have hu2' : 0 ≤ u ^ 2 := by positivity
+  have a1 : |t0 + t1 - 2 * m| ≤ 4 * S := by
+    have := abs_le.mp h0; have := abs_le.mp h1; have := abs_le.mp hm
+    rw [abs_le]; constructor <;> linarith
+  have a2 : |3 * m - 2 * t0 - t1| ≤ 6 * S := by
+    have := abs_le.mp h0; have := abs_le.mp h1; have := abs_le.mp hm
+    rw [abs_le]; constructor <;> linarith
+  have b1 : |3 * (t0 + t1 - 2 * m) * u ^ 2| ≤ 12 * S := by
+    rw [abs_mul, abs_mul, abs_of_nonneg hu2', abs_of_pos (by norm_num : (0:ℝ) < 3)]
+    nlinarith [abs_nonneg (t0 + t1 - 2 * m)]
+  have b2 : |2 * (3 * m - 2 * t0 - t1) * u| ≤ 12 * S := by
+    rw [abs_mul, abs_mul, abs_of_nonneg hu0, abs_of_pos (by norm_num : (0:ℝ) < 2)]
+    nlinarith [abs_nonneg (3 * m - 2 * t0 - t1)]
+  calc |3 * (t0 + t1 - 2 * m) * u ^ 2 + 2 * (3 * m - 2 * t0 - t1) * u + t0|
+      ≤ |3 * (t0 + t1 - 2 * m) * u ^ 2 + 2 * (3 * m - 2 * t0 - t1) * u| + |t0| := abs_add_le _ _
+    _ ≤ |3 * (t0 + t1 - 2 * m) * u ^ 2| + |2 * (3 * m - 2 * t0 - t1) * u| + |t0| := by
+        have := abs_add_le (3 * (t0 + t1 - 2 * m) * u ^ 2) (2 * (3 * m - 2 * t0 - t1) * u); linarith
+    _ ≤ 25 * S := by linarith
+
+theorem knotSlope_bound_aux (m0 m1 m2 m3 thr S : ℝ) (h0 : |m0| ≤ S) (h1 : |m1| ≤ S) (h2 : |m2| ≤ S) (h3 : |m3| ≤ S) :
+    |if thr < |m3 - m2| + |m1 - m0| then m1 + |m1 - m0| / (|m3 - m2| + |m1 - m0|) * (m2 - m1) else (dec 1 2 : ℝ) * (m3 + m0)| ≤ S := by
+  have e0 := abs_le.mp h0; have e1 := abs_le.mp h1; have e2 := abs_le.mp h2; have e3 := abs_le.mp h3
+  split_ifs with hpos
+  · -- a convex combination of m1 and m2 (weight 0 when the denominator vanishes)
+    have hw : 0 ≤ |m1 - m0| / (|m3 - m2| + |m1 - m0|) ∧ |m1 - m0| / (|m3 - m2| + |m1 - m0|) ≤ 1 := by
+      rcases (add_nonneg (abs_nonneg (m3 - m2)) (abs_nonneg (m1 - m0))).eq_or_lt with hz | hp
+      · rw [← hz]; simp
+      · exact ⟨div_nonneg (abs_nonneg _) hp.le, by rw [div_le_one hp]; linarith [abs_nonneg (m3 - m2)]⟩
+    generalize |m1 - m0| / (|m3 - m2| + |m1 - m0|) = w at hw
+    have : m1 + w * (m2 - m1) = (1 - w) * m1 + w * m2 := by ring
+    rw [this, abs_le]
+    constructor <;> nlinarith [hw.1, hw.2]
+  · rw [abs_le]
+    have : (dec 1 2 : ℝ) = 1 / 2 := by simp [dec]
+    rw [this]
+    constructor <;> linarith
+
+/-- **knot slopes stay between the neighbouring (extended) secants**: `|t i| ≤` any bound of the four extended secants around the knot -/
+theorem knotSlope_bound (n : ℕ) (x y : ℕ → ℝ) (mmax S : ℝ) (i : ℕ)
+    (h0 : |mExt n x y i| ≤ S) (h1 : |mExt n x y (i + 1)| ≤ S) (h2 : |mExt n x y (i + 2)| ≤ S) (h3 : |mExt n x y (i + 3)| ≤ S) :
+    |knotSlope n x y mmax i| ≤ S := by
+  simp only [knotSlope, f12, elem_abs]
+  exact knotSlope_bound_aux _ _ _ _ _ _ h0 h1 h2 h3
+
+/-- **a segment is Lipschitz with constant `25 S`** (mean value theorem on the segment): what the continuity search of the harness
+relies on — no interpolant of the table can change faster than this between two altitudes of one segment -/
+theorem hermite_lipschitz (x0 x1 y0 y1 t0 t1 S a b : ℝ) (h : x0 < x1) (ha : a ∈ Set.Icc x0 x1) (hb : b ∈ Set.Icc x0 x1)
+    (h0 : |t0| ≤ S) (h1 : |t1| ≤ S) (hm : |(y1 - y0) / (x1 - x0)| ≤ S) :
+    |hermite x0 x1 y0 y1 t0 t1 b - hermite x0 x1 y0 y1 t0 t1 a| ≤ 25 * S * |b - a| := by
+  have := Convex.norm_image_sub_le_of_norm_hasDerivWithin_le (f := hermite x0 x1 y0 y1 t0 t1)
+    (f' := hermiteDeriv x0 x1 y0 y1 t0 t1) (s := Set.Icc x0 x1) (C := 25 * S)
+    (fun q _ => (hermite_hasDerivAt x0 x1 y0 y1 t0 t1 q).hasDerivWithinAt)
+    (fun q hq => by rw [Real.norm_eq_abs]; exact hermiteDeriv_bound x0 x1 y0 y1 t0 t1 q S h hq.1 hq.2 h0 h1 hm)
+    (convex_Icc x0 x1) ha hb
+  simpa [Real.norm_eq_abs] using this
+
+/-- the extended secants (two extrapolated on each side) are bounded by five times the largest secant of the table -/
+theorem mExt_bound (n : ℕ) (x y : ℕ → ℝ) (S : ℝ) (hn : 3 ≤ n) (hs : ∀ j, j + 1 < n → |secant x y j| ≤ S) (k : ℕ) :
+    |mExt n x y k| ≤ 5 * S := by
+  have hS : 0 ≤ S := le_trans (abs_nonneg _) (hs 0 (by omega))
+  have b0 := abs_le.mp (hs 0 (by omega)); have b1 := abs_le.mp (hs 1 (by omega))
+  have bn2 := abs_le.mp (hs (n - 2) (by omega)); have bn3 := abs_le.mp (hs (n - 3) (by omega))
+  simp only [mExt]
+  have two : (((2 : ℕ) : ℝ)) = 2 := by norm_num
+  rw [two]
+  split_ifs with c0 c1 c2 c3
+  · rw [abs_le]; constructor <;> linarith
+  · rw [abs_le]; constructor <;> linarith
+  · have := abs_le.mp (hs (k - 2) (by omega))
+    rw [abs_le]; constructor <;> linarith
+  · rw [abs_le]; constructor <;> linarith
+  · rw [abs_le]; constructor <;> linarith
+
+/-- **C17** within a segment the interpolant cannot change faster than `125 ·` (largest secant slope of the column) per unit of
+altitude: the bound the discontinuity search of the harness demands of the real component -/
+theorem c17_akima_lipschitz_on_segment (n : ℕ) (x y : ℕ → ℝ) (hx : Increasing n x) (S : ℝ) (hn : 3 ≤ n)
+    (hs : ∀ j, j + 1 < n → |secant x y j| ≤ S) (i : ℕ) (hi : i + 2 ≤ n) (a b : ℝ)
+    (ha : x i ≤ a ∧ a < x (i + 1)) (hb : x i ≤ b ∧ b < x (i + 1)) :
+    |eval n x y b - eval n x y a| ≤ 125 * S * |b - a| := by
+  have hS : 0 ≤ S := le_trans (abs_nonneg _) (hs 0 (by omega))
+  have hlt : x i < x (i + 1) := hx _ _ (Nat.lt_succ_self i) (by omega)
+  rw [eval_segment n x y hx a i hi ha.1 ha.2, eval_segment n x y hx b i hi hb.1 hb.2]
+  have hm : |(y (i + 1) - y i) / (x (i + 1) - x i)| ≤ 5 * S := by
+    have := hs i (by omega)
+    unfold secant at this
+    linarith
+  have := hermite_lipschitz (x i) (x (i + 1)) (y i) (y (i + 1)) (knotSlope n x y (maxTo (n - 1) (f12 n x y)) i)
+    (knotSlope n x y (maxTo (n - 1) (f12 n x y)) (i + 1)) (5 * S) a b hlt ⟨ha.1, ha.2.le⟩ ⟨hb.1, hb.2.le⟩
+    (knotSlope_bound n x y _ _ i (mExt_bound n x y S hn hs _) (mExt_bound n x y S hn hs _) (mExt_bound n x y S hn hs _)
+      (mExt_bound n x y S hn hs _))
+    (knotSlope_bound n x y _ _ (i + 1) (mExt_bound n x y S hn hs _) (mExt_bound n x y S hn hs _) (mExt_bound n x y S hn hs _)
+      (mExt_bound n x y S hn hs _)) hm
+  calc _ ≤ 25 * (5 * S) * |b - a| := this
+    _ = 125 * S * |b - a| := by ring
 
 end OAS.C17Akima
